@@ -42,6 +42,6 @@ run1() { c=$1; p=$2; want=$3
   if [ $want = alarm ] && [ $rc -ne 1 ]; then echo "MISSED $c $p (exit $rc)"; fi
 }
 export -f run1
-cat $jobs | xargs -P ${REGRESS_P:-5} -L 1 bash -c 'run1 $0 $1 $2'
-echo "regress done: $(grep -c clean $jobs) refactor checks, $(grep -c alarm $jobs) seed checks"
+cat $jobs | xargs -P ${REGRESS_P:-5} -L 1 bash -c 'run1 $0 $1 $2' | tee $ROOT/out.txt
+echo "regress done: $(grep -c clean $jobs) refactor checks, $(grep -c alarm $jobs) seed checks; $(grep -c '^FALSE-ALARM' $ROOT/out.txt) false alarms, $(grep -c '^MISSED' $ROOT/out.txt) missed, $(grep -c '^PATCH-FAILED' $ROOT/out.txt) patches failed"
 rm -rf $ROOT
